@@ -388,7 +388,7 @@ PROPS["C05"] = {
 }
 
 PROPS["C11"] = {
-  "units": ["framing", "routerrecv", "routermap", "flags", "routerfrag", "routersend"],
+  "units": ["framing", "routerrecv", "routermap", "flags", "routerfrag", "routersend", "routerhold"],
   "kani_quick": [], "kani_thorough": [],
   "claim": "Envelope handling only, proved for every message shape (any number of frames up to the container limit, empty frames anywhere): ROUTER's automatic delimiter is inserted right after the identity and removed from exactly that slot, "
            "DEALER's is prepended and stripped, the payload frames after it are unchanged frame for frame (decode after encode restores the payload); REP's extract_routing_prefix splits at the first empty frame, loses and reorders nothing, "
@@ -396,12 +396,14 @@ PROPS["C11"] = {
            "ROUTER's receive loop (RouterSocket::recv_logical_finalized, its tokio::select! desugared to a nondeterministic choice between the arms, rewrite R12): a batch reaches the application only from a pipe whose identity is finalized "
            "(so it is never labelled with a placeholder for a peer that announced an identity), every batch taken from the queue is either the one returned or parked in arrival order (never dropped), "
            "and the finalize signal is subscribed to before the last check for releasable data (no lost wake-up window). "
+           "The two writers of the identity gate (unit routerhold, on the concrete map of per-pipe FIFOs, counter and finalized set): RouterSocket::hold_pending_batch parks the batch at the BACK of its own pipe's queue, leaves every other queue untouched, counts it exactly once and finalizes nothing; "
+           "RouterSocket::finalize_pipe adds exactly that pipe to the finalized set (nothing is ever removed by it), touches no parked batch, and wakes the waiters only AFTER the pipe is in the set. "
            "RouterMap (identity <-> connection maps, unit routermap): after add_peer / update_peer_identity the identity routes to the connection that announced it (also when the identity was already in the map: take-over), "
            "the pipe is labelled with it, the pipe's previous label (placeholder) no longer routes, every other identity and pipe entry is untouched; detaching a pipe removes its label and its identity's route "
            "unless another pipe has taken that identity over, in which case the route of the live connection is kept. "
            "ROUTER pipe_detached (whole function, unit routerfrag): a detached pipe loses BOTH its identity label and its pass through the identity gate (and its held batches), preserving the pair invariant "
            "'no pipe passes the gate without an identity label' that keeps late messages from being labelled with the pipe:N placeholder; other pipes are untouched.",
-  "level_note": "The identity gate itself (pipe_finalized DashMap, held_ingress map, take_finalized_held with HashMap::keys().find()) enters as an abstract stand-in with a monotone `finalized` predicate. RouterMap is verified with the sequential lock model (its mutations come from the socket core's event loop; remove_peer_by_read_pipe takes its two locks one after the other); "
+  "level_note": "In unit routerrecv the identity gate enters as an abstract stand-in with a monotone `finalized` predicate; its two writers hold_pending_batch and finalize_pipe are proved on their real bodies in unit routerhold (sequential lock model, AtomicUsize as a mathematical counter: wrap-around not modelled), its reader take_finalized_held (HashMap::keys().find(closure), Option::map(closure): outside Verus' subset) stays an ASSUMED contract. RouterMap is verified with the sequential lock model (its mutations come from the socket core's event loop; remove_peer_by_read_pipe takes its two locks one after the other); "
                 "HashMap<Blob, _> uses vstd's HashMap specification with the ASSUMED key model for Blob (derived Eq/Hash over its bytes). Not covered: RouterMap::remove_peer_by_identity (HashMap iteration), the identity gate versus racing messages, ROUTER_MANDATORY error mapping, REQ's envelope handling in req_socket.rs "
                 "(inside async code with tokio::select!). Encode requires the batch to have room for one more frame (derived precondition len < 255).",
   "technique": "contract-based deductive verification (Verus; FrameBatch as Seq<Msg> view, proved for the real FrameBatch in unit framebatch)",
